@@ -2,7 +2,7 @@ import json, os, time
 import vlib, mcdrive
 
 ASSUME = [
-    'cut points: every scripted scenario state and every distinct mutator successor state of the depth-1 exploration (quick) / depth 2 (thorough)',
+    'cut points: every scripted scenario state and every distinct mutator successor state of the depth-1 exploration; continuations: reduced alphabet (quick) / full alphabet (thorough)',
     'continuations of length 1 over the whole alphabet (full on scenario states, reduced on successor states)',
     'comparison: complete canonical dump (all fields incl. index maps, config, markers), reply ids/bytes/order/recipient sets, and the exported accessors OriginWhitelisted/TrustedBridge/LastPostMessage/GetSession',
 ]
@@ -10,7 +10,7 @@ RULE = 'states x {Marshal->Unmarshal into a fresh instance} x alphabet continuat
 
 def run(tier):
     t0 = time.time()
-    budget = float(os.environ.get('VERIF_BUDGET_S', '150' if tier == 'quick' else '1500'))
+    budget = float(os.environ.get('VERIF_BUDGET_S', '150' if tier == 'quick' else '3000'))
     deadline = int(t0 + budget)
     binary = mcdrive.build_mc()
     sd = vlib.scratch_dir()
@@ -19,27 +19,21 @@ def run(tier):
     # successor states from the mc explorer
     work = []
     seen = set()
-    levels = 1 if tier == 'quick' else 2
+    # cut points: every distinct successor of the depth-1 exploration.  (A second level has millions of states:
+    # it cannot be worked off in any budget and its work list exhausted the memory of the machine.)  The thorough
+    # tier continues every cut point with the FULL alphabet instead of the reduced one.
     frontier_env = {'VERIF_ALPHA': 'full', 'VERIF_EMIT': '1', 'VERIF_MONS': ''}
     rm = vlib.run_workers(binary, 'TestVerifMC', vlib.NCPU, env=frontier_env)
     for r in rm:
         for n_ in r.get('next') or []:
             if n_['key'] in seen: continue
             seen.add(n_['key']); work.append(n_['work'])
-    if levels == 2:
-        wf = os.path.join(sd, 'c03-l2.json'); json.dump(work, open(wf, 'w'))
-        e2 = dict(frontier_env); e2.update({'VERIF_ALPHA': 'reduced', 'VERIF_WORK': wf})
-        rm2 = vlib.run_workers(binary, 'TestVerifMC', vlib.NCPU, env=e2)
-        for r in rm2:
-            for n_ in r.get('next') or []:
-                if n_['key'] in seen: continue
-                seen.add(n_['key']); work.append(n_['work'])
+    del rm
     seed = int(os.environ.get('VERIF_SEED', '0') or 0)
     if seed and work:
         k = seed % len(work); work = work[k:] + work[:k]
-    wf = os.path.join(sd, 'c03-work.json'); json.dump(work, open(wf, 'w'))
-    env2 = dict(env); env2.update({'VERIF_ALPHA': 'reduced', 'VERIF_WORK': wf})
-    r2 = vlib.run_workers(binary, 'TestVerifC03', vlib.NCPU, env=env2)
+    env2 = dict(env); env2.update({'VERIF_ALPHA': 'reduced' if tier == 'quick' else 'full'})
+    r2 = vlib.run_workers(binary, 'TestVerifC03', vlib.NCPU, env=env2, per_worker_env=vlib.shard_work(work, vlib.NCPU, 'c03-work'))
     allr = r1 + r2
     viols = []
     for r in allr: viols += r.get('violations') or []
